@@ -259,6 +259,10 @@ func altOps(e *enc) []altOp {
 				for _, d := range []uint64{1, 9} {
 					ops = append(ops, altOp{[...]string{"grow16", "grow32"}[wi], p, d})
 				}
+			} else if cur == 0 {
+				// an empty field becomes a one-byte field holding 0x00 (e.g. absent entry metadata -> the smallest
+				// well-formed one): an optional part appears where the rest of the encoding does not provide for it
+				ops = append(ops, altOp{[...]string{"grow16", "grow32"}[wi], p, 1})
 			}
 		}
 	}
@@ -281,7 +285,11 @@ func applyOp(b []byte, o altOp) []byte {
 		cur := beGet(b[o.pos : o.pos+w])
 		end := o.pos + w + int(cur)
 		out := append([]byte{}, b[:end]...)
-		out = append(out, bytes.Repeat([]byte{0xEE}, int(o.val))...)
+		fill := byte(0xEE)
+		if cur == 0 {
+			fill = 0
+		}
+		out = append(out, bytes.Repeat([]byte{fill}, int(o.val))...)
 		out = append(out, b[end:]...)
 		bePut(out[o.pos:o.pos+w], cur+o.val)
 		return out
